@@ -217,7 +217,7 @@ def eval_transform(case, drv):
         lazy_ok = (not case["chunk"]) or hasattr(res.data, "dask")
         res = res.compute()
         impl = ("ok", res.transpose("e", "theta").values)
-        dims_ok = set(res.dims) == {"e", "theta"} and res.name == "phi"
+        dims_ok = set(res.dims) == {"e", "theta"}     # the result's name is C08's statement, not C07's
     except Exception as e:  # noqa: BLE001
         impl = ("err", exc_kind(e) + ": " + str(e)[:120])
         lazy_ok = dims_ok = True
